@@ -183,21 +183,27 @@ func (u *upstream) chooseHost(routingKey []byte, req *simpleRequest) (string, er
 	return candidates[i], nil
 }
 
-func (u *upstream) MakeRequestToHost(addr string, req *simpleRequest) {
+// MakeRequestToHost sends the requests to the host; several requests stay together on
+// the backend connection.
+func (u *upstream) MakeRequestToHost(addr string, reqs ...*simpleRequest) {
 	// request metrics
-	u.stats.RqTotal.Inc()
-	req.RegisterHook(func(req *simpleRequest) {
-		if req.Response().Type == Error {
-			u.stats.RqFailureTotal.Inc()
-		} else {
-			u.stats.RqSuccessTotal.Inc()
-		}
-		u.stats.RqDurationMs.Record(uint64(req.Duration() / time.Millisecond))
-	})
+	for _, req := range reqs {
+		u.stats.RqTotal.Inc()
+		req.RegisterHook(func(req *simpleRequest) {
+			if req.Response().Type == Error {
+				u.stats.RqFailureTotal.Inc()
+			} else {
+				u.stats.RqSuccessTotal.Inc()
+			}
+			u.stats.RqDurationMs.Record(uint64(req.Duration() / time.Millisecond))
+		})
+	}
 
 	select {
 	case <-u.quit:
-		req.SetResponse(newError(upstreamExited))
+		for _, req := range reqs {
+			req.SetResponse(newError(upstreamExited))
+		}
 		return
 	default:
 	}
@@ -207,11 +213,13 @@ func (u *upstream) MakeRequestToHost(addr string, req *simpleRequest) {
 		// the node cannot be reached: it may have been replaced (failover), so ask
 		// for the current layout instead of waiting for the periodic refresh.
 		u.triggerSlotsRefresh()
-		req.SetResponse(newError(err.Error()))
+		for _, req := range reqs {
+			req.SetResponse(newError(err.Error()))
+		}
 		return
 	}
 	// TODO: detect client status
-	c.Send(req)
+	c.Send(reqs...)
 }
 
 func (u *upstream) getClient(addr string) (*client, error) {
@@ -342,8 +350,11 @@ func (u *upstream) handleRedirection(req *simpleRequest, resp *RespValue) {
 		askingReq := newSimpleRequest(newArray(
 			*newBulkString(ASKING),
 		))
-		u.MakeRequestToHost(hostAddr, askingReq)
-		u.MakeRequestToHost(hostAddr, req)
+		// together: whatever else is sent to that node at the same moment (another
+		// client's request, the slots refresh) must not get between them, or the
+		// command arrives without ASKING and goes round once more - behind the
+		// commands pipelined after it.
+		u.MakeRequestToHost(hostAddr, askingReq, req)
 	default:
 		// the prefix matched under Unicode case folding only (e.g. "a\u017fk")
 		req.SetResponse(resp)
@@ -544,6 +555,9 @@ type client struct {
 	onRedirection  func(req *simpleRequest, resp *RespValue)
 	onClusterDown  func(req *simpleRequest, resp *RespValue)
 
+	// sendMu keeps the requests of one Send call together in the queue.
+	sendMu sync.Mutex
+
 	quitOnce sync.Once
 	quit     chan struct{}
 	done     chan struct{}
@@ -622,7 +636,17 @@ func (c *client) Start() {
 	close(c.done)
 }
 
-func (c *client) Send(req *simpleRequest) {
+// Send enqueues the requests back to back: no request of another caller gets between
+// them on the connection (ASKING only covers the command that follows it directly).
+func (c *client) Send(reqs ...*simpleRequest) {
+	c.sendMu.Lock()
+	defer c.sendMu.Unlock()
+	for _, req := range reqs {
+		c.send(req)
+	}
+}
+
+func (c *client) send(req *simpleRequest) {
 	select {
 	case <-c.quit:
 		req.SetResponse(newError(backendExited))
